@@ -85,6 +85,14 @@ CHECKS = {
              "leaked, and exhaustion is never unwrapped. Does not decide untracked allocations or Arc cycles.",
         note="trusts std atomics; count*size_of wrap in release is bounded by C01 limits, not re-proved",
         ref="DESIGN.md section 3 C13"),
+    "C15": dict(
+        technique="symbolic affine evaluation of MIR (abstract interpretation over {x,y,w,h,1}) of the three orientation maps, coefficient comparison; control-dependence / must-pass-through for channel order",
+        text="Decides the coordinate-map half for all sizes and coordinates: for each of the eight orientations the maps in "
+             "FrameBuffer::from_grids, ImageStream::to_original_coord and ImageMetadata::apply_orientation (forward and inverse) equal the "
+             "EXIF definition, are mutually inverse and agree on the dimension swap; stream channels are pushed colour, black (cmyk only), "
+             "alpha (unless skipped) with aligned parallel vectors. Does not decide rounding/clamping or sample equality between outputs.",
+        note="affine forms with rational coefficients; an arm that is not straight-line affine arithmetic is reported as not evaluable (fail closed)",
+        ref="DESIGN.md section 3 C15"),
     "C20": dict(
         technique="protocol-shape rules on MIR: who-may-write census, test-and-set shape, must-pass-through, guard liveness dataflow",
         text="Decides the structural safety argument of the render-handle protocol for every interleaving: exact writer/locker "
